@@ -15,7 +15,7 @@ LEVEL = 'other'
 MANIFEST = {
     'engine': 'fst+pysym+lrtab',
     'level': 'other',
-    'technique': 'leaf codecs by transducer equivalence, to_string wrapper by symbolic execution, reserved-word table check exhaustive over token tables; per-production print/parse inversion on representative sentences (bounded)',
+    'technique': 'leaf codecs by transducer equivalence, to_string wrapper by symbolic execution, reserved-word table check exhaustive over token tables; bare-part obligations over the token-level lexer model (first-match automaton of the real master regex) with the quoting decision read off the real printer by symbolic execution; helper-overrider contracts; per-production print/parse inversion on representative sentences (bounded)',
     'text': 'Leaves, the parentheses/alias wrapper and the keyword-collision table are decided for all inputs; the per-production inversion '
             'is exercised on one shortest sentence per production plus every statement of the test-suite (tree AND string compared, also '
             'after copy()) and is bounded, not proved. Failing cases on the unchanged tree are genuine defects (known findings).',
